@@ -200,6 +200,9 @@ inductive NodeKind
 deriving Repr, DecidableEq, Inhabited
 
 def producerKind : String → Option NodeKind
+  -- (the most frequent ones first: the kernel tries the literals in this order)
+  | "DD_ZERO" | "cuddE" | "cuddT" | "DD_ONE" => some .borrowed
+  | "cuddCacheLookup2Zdd" => some .fresh
   -- CUDD BDD
   | "Cudd_bddAnd" | "Cudd_bddOr" | "Cudd_bddXor" | "Cudd_bddXnor" | "Cudd_bddIte"
   | "Cudd_bddExistAbstract" | "Cudd_bddUnivAbstract" | "Cudd_bddAndAbstract"
@@ -214,9 +217,8 @@ def producerKind : String → Option NodeKind
   -- CUDD ZDD
   | "Cudd_zddDiff" | "Cudd_zddIntersect" | "Cudd_zddUnion" | "Cudd_zddIte" | "cuddZddIte"
   | "Cudd_zddIthVar" | "Cudd_zddSupport" | "Cudd_zddSubset0" | "Cudd_zddSubset1"
-  | "Cudd_zddPortFromBdd" | "Cudd_zddPortToBdd" | "cuddUniqueInterZdd"
-  | "cuddCacheLookup2Zdd" => some .fresh
-  | "Cudd_ReadZddOne" | "Cudd_ReadZero" | "DD_ONE" | "DD_ZERO" | "cuddT" | "cuddE" => some .borrowed
+  | "Cudd_zddPortFromBdd" | "Cudd_zddPortToBdd" | "cuddUniqueInterZdd" => some .fresh
+  | "Cudd_ReadZddOne" | "Cudd_ReadZero" => some .borrowed
   -- Sylvan
   | "sylvan_and" | "sylvan_or" | "sylvan_xor" | "sylvan_imp" | "sylvan_biimp" | "sylvan_equiv"
   | "sylvan_diff" | "sylvan_ite" | "sylvan_exists" | "sylvan_forall" | "sylvan_and_exists"
